@@ -348,31 +348,33 @@ structure Member where
   cbase : CBase      -- class of typemap.c_type
   fbase : FBase      -- class of (f_c_type or f_type)   (gen_arg_as_fortran(bindc=True); `character(kind=C_CHAR)` for char)
   ptr : Nat          -- ast.is_indirect()
-  alen : Nat         -- product of the array extents, 0 for a scalar member
+  dims : List Nat    -- array extents in C (row-major) order, [] for a scalar member
   deriving DecidableEq, Repr
 
 structure FieldC where
   base : CBase
   ptr : Nat
-  alen : Nat
+  dims : List Nat    -- extents as written in C
   deriving DecidableEq, Repr
 
 structure FieldF where
   base : FBase
-  alen : Nat
+  dims : List Nat    -- extents as written in Fortran
   deriving DecidableEq, Repr
 
-/-- struct member versus derived-type component (18.3.4): same array length; a pointer member pairs with
+/-- struct member versus derived-type component (18.3.4, 18.3.5): the extents in reverse order (C is row-major,
+    Fortran column-major); a pointer member pairs with
     `type(C_PTR)`; otherwise an interoperable type -/
 def fieldInterop (c : FieldC) (f : FieldF) : Bool :=
-  c.alen == f.alen && (if c.ptr ≥ 1 then f.base == .cptr else baseMatch c.base f.base)
+  c.dims.reverse == f.dims && (if c.ptr ≥ 1 then f.base == .cptr else baseMatch c.base f.base)
 
 /-- `ast.gen_arg_as_c() + ";"` -/
-def memberC (m : Member) : FieldC := ⟨m.cbase, m.ptr, m.alen⟩
+def memberC (m : Member) : FieldC := ⟨m.cbase, m.ptr, m.dims⟩
 
-/-- `type(C_PTR) :: name[(dims)]` for an indirect member, else the interoperable type with the (reversed) extents -/
+/-- `type(C_PTR) :: name[(dims)]` for an indirect member, else the interoperable type; the extents are written in
+    reverse order in both branches (`reversed(ast.array)`) -/
 def memberF (m : Member) : FieldF :=
-  if m.ptr ≥ 1 then ⟨.cptr, m.alen⟩ else ⟨m.fbase, m.alen⟩
+  if m.ptr ≥ 1 then ⟨.cptr, m.dims.reverse⟩ else ⟨m.fbase, m.dims.reverse⟩
 
 def structC (ms : List Member) : List FieldC := ms.map memberC
 def structF (ms : List Member) : List FieldF := ms.map memberF
